@@ -1,7 +1,8 @@
 (* C03, ownership, part 8: update_<item> (in place and copy-on-write). *)
 From Coq Require Import List ZArith Bool Arith Lia.
 From SC Require Import Base.Res Base.PyList Inst.Heap Inst.ClassTable Inst.Model Inst.Framed
-  Inst.TypeProofs Inst.OwnProofs Inst.OwnProofs2 Inst.OwnProofs3 Inst.OwnColl Inst.OwnCopy Inst.OwnCow.
+  Inst.TypeProofs Inst.OwnProofs Inst.OwnProofs2 Inst.OwnProofs3 Inst.OwnColl Inst.OwnCopy Inst.OwnCow
+  Inst.OwnInit.
 Import ListNotations.
 Open Scope nat_scope.
 Set Warnings "-unused-intro-pattern".
@@ -78,3 +79,114 @@ Section UpdateItem.
          split; auto).
   Qed.
 End UpdateItem.
+
+
+(* ------------------------------------------------------------------ *)
+(** * transform_<item>, update_<a>, transform_<a> *)
+Section Transforms.
+  Variable ct : ctable.
+  Hypothesis Hflat : flat_table ct.
+  Hypothesis Hninv : no_inval_table ct.
+  Hypothesis Hres : no_reserved_names ct.
+  Notation Inv := (Inv ct).
+  Notation rec := (exec ct XFUEL).
+  Local Opaque exec XFUEL.
+  Let HrecMv := Hmv ct Hflat XFUEL.
+
+  Lemma tail_missingx l cl d k a sp fam io :
+    lookup_cls ct cl = Some k -> lookup_attr k a = Some sp -> leaf_coll sp fam -> io_plainx sp io ->
+    T (fun h => Inv h /\ inst_at l cl d h)
+      (c' <- mutate_collection ct rec fam sp l VMissing io ;;
+       mutate_attr ct rec l a c' true false false false)
+      (fun _ h => Inv h) Inv.
+  Proof.
+    intros Hk Ha Hl Hio. pose proof Hl as (Hf & _).
+    intros s [I N].
+    pose proof (create_coll ct Hflat rec sp fam (inst_at l cl d) Hf (astable_inst_at l cl d) s (conj I N)) as Cr.
+    unfold mutate_collection. cbn [is_missing]. unfold bind at 1. unfold bind at 1.
+    destruct (create_collection rec sp s) as [[c1|err] s1]; [|exact (proj1 Cr)].
+    destruct Cr as [[I1 N1] [fc [-> [L C]]]].
+    exact (tail_loose ct Hflat Hninv l cl d k a sp fam fc (mutate_collection ct rec fam sp l (VRef fc) io) Hk Ha Hl
+             (fun F SF HV => mutate_collection_leafx ct Hflat rec HrecMv fam sp l fc io F Hl Hio SF HV)
+             s1 (conj (conj I1 (conj N1 L)) C)).
+  Qed.
+
+  Lemma tail_missing_cowx l cl (d : list (nat * val)) k a sp fam io :
+    flat_class k -> keys_managed k d ->
+    lookup_cls ct cl = Some k -> lookup_attr k a = Some sp -> leaf_coll sp fam -> io_plainx sp io ->
+    T (fun h => Inv h /\ inst_at l cl d h)
+      (c' <- mutate_collection ct rec fam sp l VMissing io ;;
+       mutate_attr ct rec l a c' false false false false)
+      (fun _ h => Inv h) Inv.
+  Proof.
+    intros Fc Km Hk Ha Hl Hio. pose proof Hl as (Hf & _).
+    intros s [I N].
+    pose proof (create_coll ct Hflat rec sp fam (inst_at l cl d) Hf (astable_inst_at l cl d) s (conj I N)) as Cr.
+    unfold mutate_collection. cbn [is_missing]. unfold bind at 1. unfold bind at 1.
+    destruct (create_collection rec sp s) as [[c1|err] s1]; [|exact (proj1 Cr)].
+    destruct Cr as [[I1 N1] [fc [-> [L C]]]].
+    exact (tail_loose_cow ct Hflat Hninv Hres l cl d k a sp fam fc (mutate_collection ct rec fam sp l (VRef fc) io)
+             Fc Km Hk Ha Hl
+             (fun F SF HV => mutate_collection_leafx ct Hflat rec HrecMv fam sp l fc io F Hl Hio SF HV)
+             s1 (conj (conj I1 (conj N1 L)) C)).
+  Qed.
+
+  Definition tr_io (hh : hargs) : item_op :=
+    mkio (pos0 hh) VMissing None
+         (match h_fn hh with Some f => Some (XFn f, @None (attr_spec * loc)) | None => None end)
+         [] false true (tri_of (h_by_index hh)) false.
+
+  Lemma tr_io_plain sp hh : oqfn (h_fn hh) -> io_plainx sp (tr_io hh).
+  Proof.
+    intro Hq. split; [reflexivity|]. split; [reflexivity|]. unfold tr_io. simpl.
+    destruct (h_fn hh) as [f|]; [right; right; exists f; auto|left; reflexivity].
+  Qed.
+
+  (* obj.transform_<item>(x, f, _inplace=True), f a quiet function, no attribute transforms *)
+  Theorem transform_item_inplace l a hh s :
+    h_inplace hh = true -> h_kwfn hh = [] -> oqfn (h_fn hh) ->
+    Inv (heap s) -> recv_leafc ct l a (heap s) -> dflt_missingc ct l a (heap s) ->
+    Inv (heap (snd (run_helper ct l (HTransformItem a) hh s))).
+  Proof.
+    intros Hin Hkf Hq I R D. unfold run_helper. destruct (negb (h_if hh)); [exact I|]. rewrite Hin, Hkf.
+    cbv zeta.
+    apply (elem_prefix ct l a s (fun r c =>
+      c' <- (match family_of (a_ty (snd r)) with
+             | Some fam => mutate_collection ct rec fam (snd r) l c (tr_io hh)
+             | None => fail AttrErr end) ;;
+      mutate_attr ct rec l a c' true false false false) I R D).
+    intros cl d k sp fam N Hk Ha Hl. pose proof Hl as (Hf & _). cbn [snd]. rewrite Hf.
+    split.
+    - intros fc As.
+      eapply (T_run _ _ _ _ Inv s); [eapply (tail_held ct Hflat Hninv l cl d k a sp fam fc); eauto| | |]; auto.
+      + intros F SF HV. apply (mutate_collection_leafx ct Hflat rec HrecMv fam sp l fc (tr_io hh) F Hl (tr_io_plain sp hh Hq) SF HV).
+      + split; auto.
+    - intros As.
+      eapply (T_run _ _ _ _ Inv s); [eapply (tail_missingx l cl d k a sp fam (tr_io hh)); eauto; now apply tr_io_plain| | |]; auto.
+      split; auto.
+  Qed.
+
+  Theorem transform_item_cow l a hh s cl d k :
+    h_inplace hh = false -> h_kwfn hh = [] -> oqfn (h_fn hh) ->
+    Inv (heap s) -> flat_recv ct l (heap s) cl d k ->
+    (forall sp, lookup_attr k a = Some sp -> exists fam, leaf_coll sp fam) ->
+    (assoc a d = None -> class_default k a = VMissing) ->
+    Inv (heap (snd (run_helper ct l (HTransformItem a) hh s))).
+  Proof.
+    intros Hin Hkf Hq I FR Hla D. pose proof FR as (N & Hk & Fc & Km).
+    unfold run_helper. destruct (negb (h_if hh)); [exact I|]. rewrite Hin, Hkf. cbv zeta.
+    apply (elem_prefix_cow ct Hflat l a s cl d k (fun r c =>
+      c' <- (match family_of (a_ty (snd r)) with
+             | Some fam => mutate_collection ct rec fam (snd r) l c (tr_io hh)
+             | None => fail AttrErr end) ;;
+      mutate_attr ct rec l a c' false false false false) I FR Hla D).
+    intros sp fam Ha Hl. pose proof Hl as (Hf & _). cbn [snd]. rewrite Hf.
+    split.
+    - intros fc s1 H.
+      eapply (T_run _ _ _ _ Inv s1); [eapply (tail_loose_cow ct Hflat Hninv Hres l cl d k a sp fam fc); eauto| | |]; auto.
+      intros F SF HV. apply (mutate_collection_leafx ct Hflat rec HrecMv fam sp l fc (tr_io hh) F Hl (tr_io_plain sp hh Hq) SF HV).
+    - intros As.
+      eapply (T_run _ _ _ _ Inv s); [eapply (tail_missing_cowx l cl d k a sp fam (tr_io hh)); eauto; now apply tr_io_plain| | |]; auto.
+      split; auto.
+  Qed.
+End Transforms.
